@@ -374,3 +374,18 @@ Theorem C01_truncated_frame_refuted :
                    /\ forall data', (length data' <= 29)%nat -> firstn 30 (hdr :: data') = hdr :: data'.
 Proof. exact truncated_frame_refuted. Qed.
 Print Assumptions C01_truncated_frame_refuted.
+
+(* ===================== wave 15: open/close histories of instances on one dongle ===================== *)
+
+(* _SharedRadio.open_instance numbers the instances with a counter that never goes back: for EVERY history of opening
+   and closing (closing in any order) the ids of the instances open at the same time are pairwise distinct — so each has
+   its own response queue, and C01_answers_are_own (which is keyed by the instance id) applies to every such history. *)
+Theorem C01_instance_ids_distinct : forall evs, NoDup (snd (irun_counter evs)).
+Proof. exact instance_ids_distinct. Qed.
+Print Assumptions C01_instance_ids_distinct.
+
+(* "next id = number of open instances": open, open, close the first, open -> two open instances share id 1 and the
+   newcomer takes over the other one's response queue. *)
+Theorem C01_instance_ids_by_count_refuted : exists evs, ~ NoDup (irun_len evs).
+Proof. exact instance_ids_by_count_refuted. Qed.
+Print Assumptions C01_instance_ids_by_count_refuted.
